@@ -174,11 +174,16 @@ def r3(R, m):
     loops = [n for n in ast.walk(fn) if isinstance(n, ast.For)]
     R.shape(len(loops) == 1, "C03.R3", REL, "unitcell.makerings", "the loop over the sorted reflections")
     lp = loops[0]
-    R.check(src(lp.iter) == "self.peaks[1:]", "C03.R3", REL, lp.lineno, "unitcell.makerings", "loop over %s" % src(lp.iter),
+    it = src(lp.iter).replace(" ", "")
+    R.shape(it.startswith("self.peaks"), "C03.R3", REL, "unitcell.makerings", "a loop over self.peaks[...]")
+    R.check(it == "self.peaks[1:]", "C03.R3", REL, lp.lineno, "unitcell.makerings", "loop over %s" % src(lp.iter),
             "the grouping loop must visit every reflection after the first exactly once")
-    seed = [a for a in fn.body if isinstance(a, ast.Assign) and src(a.targets[0]) == "peak" and src(a.value) == "self.peaks[0]"]
-    R.check(len(seed) == 1 and seed[0].lineno < lp.lineno, "C03.R3", REL, fn.lineno, "unitcell.makerings", "peak = self.peaks[0] seeds the first ring",
+    seed = [a for a in fn.body if isinstance(a, ast.Assign) and src(a.value).replace(" ", "") == "self.peaks[0]" and a.lineno < lp.lineno]
+    R.check(len(seed) == 1, "C03.R3", REL, fn.lineno, "unitcell.makerings", "<first> = self.peaks[0] seeds the first ring",
             "the first reflection is not placed in a ring")
+    # the path analysis below understands the form  for peak in ...: self.ringds / self.ringhkls  with peak[0], peak[1]
+    R.shape(isinstance(lp.target, ast.Name) and "self.ringds" in src(lp) and "self.ringhkls" in src(lp), "C03.R3", REL, "unitcell.makerings",
+            "the loop body in the form 'for peak in ...: ... self.ringds ... self.ringhkls[...]' (other spellings are not analysed)")
     R.check(not any(isinstance(x, (ast.Break, ast.Continue, ast.Return)) for x in ast.walk(lp)), "C03.R3", REL, lp.lineno, "unitcell.makerings",
             "no early exit from the grouping loop", "reflections can be skipped")
     # paths through the loop body: enumerate via the if/else structure
@@ -252,8 +257,24 @@ def r4(R, m):
     R.check(len(srt) == 1 and len(store) == 1 and srt[0].lineno < store[0].lineno, "C03.R4", REL, fn.lineno, "unitcell.gethkls",
             "peaks.sort() before the list is stored", "rings are formed from consecutive entries: the list must be ascending in d-star")
     dsf = m.func("unitcell.ds")
-    R.check("np.dot(h, np.dot(self.gi, h))" in ast.unparse(dsf) and "sqrt" in ast.unparse(dsf), "C03.R4", REL, dsf.lineno, "unitcell.ds",
-            "ds(h) = sqrt(h . gi . h)", "d-star is not the length from the reciprocal metric tensor")
+    # ds(h) == sqrt(h . gi . h): value numbering of the method body with symbolic h and gi (any spelling of the two products)
+    import numpy as _np
+    from engine import vn, vn_py
+    I = vn_py.Interp({"unitcell": m})
+    H = _np.array([vn.atom("h%d" % i) for i in range(3)], dtype=object)
+    GI = _np.array([[vn.atom("gi%d%d" % (min(i, j), max(i, j))) for j in range(3)] for i in range(3)], dtype=object)
+    obj = vn_py.SymObject((m, m.cls("unitcell")), gi=GI)
+    try:
+        got = I.call_fn(m, dsf, [obj, H], {})
+    except Exception as ex:     # the interpreter does not understand the new spelling: cannot decide
+        raise pyfacts.AnalysisError("C03.R4: cannot value-number unitcell.ds: %s" % ex)
+    want2 = vn.const(0)
+    for i in range(3):
+        for j in range(3):
+            want2 = want2 + H[i] * GI[i][j] * H[j]
+    g = vn_py.R(got)
+    R.check(vn.equal(g * g, want2), "C03.R4", REL, dsf.lineno, "unitcell.ds", "ds(h)^2 == h . gi . h (symmetric gi, symbolic h)",
+            "d-star is not the length from the reciprocal metric tensor: ds(h)^2 = %s" % vn_py._short(g * g))
 
 
 def r5(R, m):
